@@ -7,6 +7,7 @@ from ..common import *
 from ..lie import *
 from .c01 import K_EPS, K_SQRT, direction, gen_x, regime
 
+K_JAC = 1024
 RULE = ('(group, op, X, a) with X a valid group element (unit quaternion up to rounding) and a from the C01 block generator '
         '(zero, tiny, around eps, O(1), large); ops Retr, +, add_ (with extra trailing components), algebra +, Jinvp, Jr; '
         'non-trivial = a != 0; distinct by value; tolerances 256 eps (rotation/scale), 64 sqrt(eps) (translation block)')
@@ -70,11 +71,300 @@ def laws(pp, torch, g, X, a, dtype, tail=()):
     return None
 
 
+# ---------------------------------------------------------------------------------------------------------------
+# independent references written from the property text (textbook matrix representation, no pypose, no Coq model)
+def _hat(g, a):
+    """a^ : the generator matrix of the algebra element (3x3 for so3, 4x4 [[Phi + sigma I, tau], [0, 0]] otherwise)"""
+    a = list(a)
+    if g == 'SO3':
+        tau, phi, sg = [0, 0, 0], a, 0
+    elif g == 'SE3':
+        tau, phi, sg = a[:3], a[3:6], 0
+    elif g == 'RxSO3':
+        tau, phi, sg = [0, 0, 0], a[:3], a[3]
+    else:
+        tau, phi, sg = a[:3], a[3:6], a[6]
+    K = [[sg, -phi[2], phi[1]], [phi[2], sg, -phi[0]], [-phi[1], phi[0], sg]]
+    if g == 'SO3':
+        return K
+    return [K[i] + [tau[i]] for i in range(3)] + [[0, 0, 0, 0]]
+
+
+def _mm(A, B):
+    n = len(A)
+    return [[sum(A[i][k] * B[k][j] for k in range(n)) for j in range(n)] for i in range(n)]
+
+
+def adj_ref(g, X, a, transposed):
+    """Adj(X, a) = vee(T a^ T^-1), AdjT(X, a) = vee(T^-1 a^ T)  with T the matrix of X - exactly the statements
+    X Exp(a) X^-1 = Exp(Adj(X, a)) and X^-1 Exp(a) X = Exp(AdjT(X, a)) differentiated; rational arithmetic.
+    Returns (reference as floats, magnitude bound of the summed terms)."""
+    Xf = [Fraction(v) for v in X]
+    af = [Fraction(v) for v in a]
+    n = 3 if g == 'SO3' else 4
+    sq = lambda flat: [list(flat[i * n:(i + 1) * n]) for i in range(n)]
+    T, Ti = sq(ref_matrix(g, Xf)), sq(ref_matrix(g, ref_inv(g, Xf)))
+    if transposed:
+        T, Ti = Ti, T
+    H = _hat(g, af)
+    M = _mm(_mm(T, H), Ti)
+    ab = lambda A: [[abs(v) for v in r] for r in A]
+    B = _mm(_mm(ab(T), ab(H)), ab(Ti))
+    phi = [(M[2][1] - M[1][2]) / 2, (M[0][2] - M[2][0]) / 2, (M[1][0] - M[0][1]) / 2]
+    sg = (M[0][0] + M[1][1] + M[2][2]) / 3
+    tau = [M[i][3] for i in range(3)] if n == 4 else []
+    out = {'SO3': phi, 'SE3': tau + phi, 'RxSO3': phi + [sg], 'Sim3': tau + phi + [sg]}[g]
+    return [float(v) for v in out], float(max(max(r) for r in B))
+
+
+def adj_oracle(g, X, a, got, transposed, eps, ref=None):
+    """description of the failure of Adj / AdjT against adj_ref, or None"""
+    ref, big = ref or adj_ref(g, X, a, transposed)
+    tol = K_EPS * eps * big
+    bad = [(j, got[j], ref[j]) for j in range(len(ref)) if not abs(got[j] - ref[j]) <= tol]
+    if len(got) != len(ref) or bad:
+        nm = 'AdjT' if transposed else 'Adj'
+        st = 'X^-1 a^ X' if transposed else 'X a^ X^-1'
+        return ('%s %s(X, a) is not the algebra element of %s (the first-order form of %s): components (index, got, expected) %s, tolerance %.3g'
+                % (g, nm, st, 'Exp(a)@X = X@Exp(AdjT(X,a))' if transposed else 'X@Exp(a) = Exp(Adj(X,a))@X', bad[:4], tol))
+    return None
+
+
+def guarded(f):
+    """a crash of an oracle call on the implementation is itself a reportable outcome"""
+    try:
+        return f()
+    except Exception as e:
+        return 'raised %r' % (e,)
+
+
+def _np():
+    import numpy
+    return numpy
+
+
+def log_ref(g, X):
+    """Log X from the definition: X = [[e^sigma Exp(phi), W tau], [0, 1]], W = sum_n (Phi + sigma I)^n / (n+1)!"""
+    np = _np()
+    t, q, s = split_elt(g, X)
+    v, w = np.array(q[:3], dtype=float), float(q[3])
+    if w < 0:
+        v, w = -v, -w
+    n = float(np.linalg.norm(v))
+    phi = v * (2 * math.atan2(n, w) / n) if n > 1e-300 else 2 * v / w
+    sg = math.log(s) if g in ('RxSO3', 'Sim3') else 0.0
+    if g == 'SO3':
+        return list(phi)
+    if g == 'RxSO3':
+        return list(phi) + [sg]
+    A = np.array([[sg, -phi[2], phi[1]], [phi[2], sg, -phi[0]], [-phi[1], phi[0], sg]])
+    W, term = np.zeros((3, 3)), np.eye(3)
+    for k in range(120):
+        W = W + term
+        term = term @ A / (k + 2)
+    tau = np.linalg.solve(W, np.array(t, dtype=float))
+    return list(tau) + list(phi) + ([sg] if g == 'Sim3' else [])
+
+
+def ad_ref(g, xi):
+    """ad(xi): matrix of y -> [xi, y] in the coordinates (tau, phi, sigma)"""
+    np = _np()
+    sk = lambda p: np.array([[0, -p[2], p[1]], [p[2], 0, -p[0]], [-p[1], p[0], 0]], dtype=float)
+    xi = [float(v) for v in xi]
+    if g == 'SO3':
+        return sk(xi)
+    if g == 'RxSO3':
+        A = np.zeros((4, 4))
+        A[:3, :3] = sk(xi[:3])
+        return A
+    k = 6 if g == 'SE3' else 7
+    A = np.zeros((k, k))
+    sg = xi[6] if g == 'Sim3' else 0.0
+    A[:3, :3] = sk(xi[3:6]) + sg * np.eye(3)
+    A[:3, 3:6] = sk(xi[:3])
+    A[3:6, 3:6] = sk(xi[3:6])
+    if g == 'Sim3':
+        A[:3, 6] = -np.array(xi[:3])
+    return A
+
+
+def bernoulli_tail(r):
+    """sum_{n >= 6} |B_n| / n! r^n = 1 - (r/2) cot(r/2) - r^2/12 - r^4/720 for r < 2 pi: bound of what the documented
+    truncation (B_0 .. B_4) of the series of the inverse left Jacobian drops"""
+    import mpmath as mp
+    if r >= 2 * math.pi * 0.98:
+        return float('inf')
+    if r == 0:
+        return 0.0
+    with mp.workdps(60):
+        x = mp.mpf(r)
+        return float(1 - (x / 2) * mp.cot(x / 2) - x ** 2 / 12 - x ** 4 / 720)
+
+
+def jinvp_oracle(g, X, p, got, eps):
+    """Jinvp(X, p) against (i) the inverse of the left Jacobian Jl = sum_n ad^n / (n+1)! at Log X applied to p - for Sim3
+    within the bound of the documented truncation - and (ii) for Sim3 the documented series sum_{n<=4} (-1)^n B_n / n! ad^n.
+    Returns a description of the failure or None."""
+    np = _np()
+    xi = log_ref(g, X)
+    A = ad_ref(g, xi)
+    k = A.shape[0]
+    J, term, tmax = np.zeros((k, k)), np.eye(k), 1.0
+    for n in range(150):
+        J = J + term
+        term = term @ A / (n + 2)
+        tmax = max(tmax, float(np.abs(term).max()))
+    pv = np.array(p, dtype=float)
+    exact = np.linalg.solve(J, pv)
+    gv = np.array(got, dtype=float)
+    sc = max(1.0, float(np.abs(exact).max()), float(np.abs(gv).max()))
+    # rounding allowance: K_JAC eps where the closed forms are well conditioned (rotation angle of X zero or >= 0.05),
+    # the tie's K_SQRT sqrt(eps) in the small-angle zone where the coefficients of Jl_inv / calcQ cancel; plus the
+    # rounding of this float64 reference itself
+    t_, q_, s_ = split_elt(g, X)
+    vn = math.sqrt(sum(float(v) ** 2 for v in q_[:3]))
+    theta = 2 * math.atan2(vn, abs(float(q_[3])))
+    rnd = (K_JAC * eps if (theta == 0.0 or theta >= 0.05) else K_SQRT * math.sqrt(eps)) * sc + 64 * 2.0 ** -52 * tmax * k * sc
+    r = float(np.linalg.norm(A, 2))
+    if g == 'Sim3':
+        A2 = A @ A
+        doc = (np.eye(k) - A / 2 + A2 / 12 - A2 @ A2 / 720) @ pv
+        d = float(np.abs(gv - doc).max())
+        rnd_doc = rnd * max(1.0, r ** 4 / 720)
+        if not d <= rnd_doc:
+            return ('Sim3 Jinvp differs from the documented series (I - ad/2 + ad^2/12 - ad^4/720)(Log X) p by %.3g (rounding allowance %.3g), |ad(Log X)|_2 = %.3g: got %s, expected %s'
+                    % (d, rnd_doc, r, [float(v) for v in gv], [float(v) for v in doc]))
+        pn = float(np.linalg.norm(pv))
+        allow = (bernoulli_tail(r) * pn if pn > 0 else 0.0) + rnd_doc
+    else:
+        allow = rnd
+    d = float(np.abs(gv - exact).max())
+    if not d <= allow:
+        return ('%s Jinvp differs from Jl(Log X)^-1 p (Jl = sum_n ad^n/(n+1)!) by %.3g, allowed %.3g%s: got %s, expected %s'
+                % (g, d, allow, ' (documented truncation bound + rounding)' if g == 'Sim3' else '', [float(v) for v in gv], [float(v) for v in exact]))
+    return None
+
+
+# out-of-place X + a / pp.add / X.add where X's batch shape is smaller than the broadcast shape raised before /repo 455c8c1
+# (clone().add_() wrote into X's own shape); regression witnesses are replayed on every run under this key
+ADD_BROADCAST_KEY = 'add-broadcast:out-of-place-add-raises-when-X-must-expand'
+BATCH_OPS = ('Adj', 'AdjT', 'Retr', 'add', 'X.add', 'pp.add', 'Jinvp')
+BATCH_SHAPES = [((2, 1), (1, 3)), ((3,), (3,)), ((1,), (4,)), ((2, 2), (2,)), ((), (3,)), ((3,), ()), ((2, 1), (3,)), ((0,), (0,)), ((0, 1), (1, 2))]
+LAYOUTS = ('contiguous', 'strided', 'expanded', 'transposed')
+
+
+def _layout(torch, rows, shape, width, dtype, layout):
+    """tensor of the given batch shape holding rows (row-major) in the requested memory layout; 'expanded' repeats
+    row 0 along every batch dimension with stride 0 (so the values differ from `rows`: the caller re-reads them)"""
+    n = 1
+    for d in shape:
+        n *= d
+    base = torch.tensor(rows, dtype=dtype).reshape(shape + (width,)) if n else torch.zeros(shape + (width,), dtype=dtype)
+    if layout == 'strided':
+        buf = torch.full(shape + (2 * width,), 7.5, dtype=dtype)
+        v = buf[..., ::2]
+        v.copy_(base)
+        return v
+    if layout == 'expanded' and n:
+        return base.reshape(-1, width)[0].expand(shape + (width,))
+    if layout == 'transposed' and len(shape) >= 2:
+        perm = list(range(len(shape)))
+        perm[0], perm[1] = perm[1], perm[0]
+        return base.permute(*perm, len(shape)).contiguous().permute(*perm, len(shape))
+    return base
+
+
+def alg_add_check(pp, torch, g, dname, Xrows, arows, bx, ba, layout):
+    """algebra element (batch shape bx; values: the first manifold-dimension entries of the X rows) + / .add / pp.add of a
+    plain tensor (batch shape ba, one extra trailing component): exactly the vector sum of the first k components, item by item"""
+    dtype = torch.float64 if dname == 'float64' else torch.float32
+    alg = ALGS[GROUPS.index(g)]
+    k = ADIM[g]
+    at = getattr(pp, alg + '_type')
+    xt = _layout(torch, [r[:k] for r in Xrows], tuple(bx), k, dtype, layout)
+    ot = _layout(torch, [list(r) + [3.25] for r in arows], tuple(ba), k + 1, dtype, layout)
+    x0, o0 = xt.clone(), ot.clone()
+    bs = tuple(torch.broadcast_shapes(tuple(bx), tuple(ba)))
+    exp = x0.broadcast_to(bs + (k,)) + o0.broadcast_to(bs + (k + 1,))[..., :k]       # one rounding per entry, as the definition
+    for form, f in (('x + t', lambda x, o: x + o), ('x.add(t)', lambda x, o: x.add(o)), ('pp.add(x, t)', lambda x, o: pp.add(x, o))):
+        what = '%s %s %s on batch shapes %s x %s (%s)' % (alg, dname, form, tuple(bx), tuple(ba), layout)
+        try:
+            out = f(pp.LieTensor(xt, ltype=at), ot)
+        except Exception as e:
+            return '%s raised %r' % (what, e)
+        if not (torch.equal(xt, x0) and torch.equal(ot, o0)):
+            return '%s changed one of its arguments' % what
+        if tuple(out.shape) != bs + (k,) or getattr(out, 'ltype', None) != at:
+            return '%s returned shape %s / ltype %s, expected %s / %s' % (what, tuple(out.shape), getattr(out, 'ltype', None), bs + (k,), at)
+        if not torch.equal(out.tensor(), exp):
+            return '%s is not the sum of the first %d components: x = %s, t = %s, got %s' % (what, k, x0.tolist(), o0.tolist(), out.tensor().tolist())
+    return None
+
+
+def batch_check(pp, torch, g, dname, op, Xrows, arows, bx, ba, layout):
+    """op on broadcastable batches (given layouts) item by item against op on the single elements; the single-element
+    result is additionally judged by the oracle of its op.  Returns a description of the first failure or None."""
+    dtype = torch.float64 if dname == 'float64' else torch.float32
+    eps = float(torch.finfo(dtype).eps)
+    alg = ALGS[GROUPS.index(g)]
+    gt, at = getattr(pp, g + '_type'), getattr(pp, alg + '_type')
+    if op == 'alg+':
+        return alg_add_check(pp, torch, g, dname, Xrows, arows, bx, ba, layout)
+    Xt, at_ = _layout(torch, Xrows, tuple(bx), GDIM[g], dtype, layout), _layout(torch, arows, tuple(ba), ADIM[g], dtype, layout)
+    bs = tuple(torch.broadcast_shapes(tuple(bx), tuple(ba)))
+    Xb, ab = pp.LieTensor(Xt, ltype=gt), pp.LieTensor(at_, ltype=at)
+    X0, a0 = Xt.clone(), at_.clone()
+    wide = lambda a: torch.cat([a.tensor(), torch.full(a.shape[:-1] + (1,), 3.25, dtype=a.dtype)], dim=-1)
+    f = {'Adj': lambda X, a: X.Adj(a), 'AdjT': lambda X, a: X.AdjT(a), 'Retr': lambda X, a: X.Retr(a), 'add': lambda X, a: X + a,
+         'X.add': lambda X, a: X.add(a.tensor()), 'pp.add': lambda X, a: pp.add(X, wide(a)), 'Jinvp': lambda X, a: X.Jinvp(a)}[op]
+    what = '%s %s %s on batch shapes %s x %s (%s)' % (g, dname, op, tuple(bx), tuple(ba), layout)
+    try:
+        out = f(Xb, ab)
+    except Exception as e:
+        return '%s raised %r' % (what, e)
+    if not (torch.equal(Xt, X0) and torch.equal(at_, a0)):
+        return '%s changed one of its arguments' % what
+    width = ADIM[g] if op in ('Adj', 'AdjT', 'Jinvp') else GDIM[g]
+    want_type = at if op in ('Adj', 'AdjT', 'Jinvp') else gt
+    if tuple(out.shape) != bs + (width,) or getattr(out, 'ltype', None) != want_type:
+        return '%s returned shape %s / ltype %s, expected %s / %s' % (what, tuple(out.shape), getattr(out, 'ltype', None), bs + (width,), want_type)
+    Xf = X0.broadcast_to(bs + (GDIM[g],)).reshape(-1, GDIM[g])
+    af = a0.broadcast_to(bs + (ADIM[g],)).reshape(-1, ADIM[g])
+    of = out.tensor().reshape(-1, width)
+    for j in range(Xf.shape[0]):
+        Xs, as_ = pp.LieTensor(Xf[j].clone(), ltype=gt), pp.LieTensor(af[j].clone(), ltype=at)
+        single = f(Xs, as_).tensor()
+        Xl, al = [float(v) for v in Xf[j].tolist()], [float(v) for v in af[j].tolist()]
+        got = [float(v) for v in of[j].tolist()]
+        sc = max(1.0, float(single.abs().max()))
+        d = float((single - of[j]).abs().max())
+        if not d <= 64 * eps * sc:
+            why = None
+            if op in ('Adj', 'AdjT'):
+                why = adj_oracle(g, Xl, al, got, op == 'AdjT', eps)
+            elif op == 'Jinvp':
+                why = jinvp_oracle(g, Xl, al, got, eps)
+            return ('%s: item %d (X = %s, a = %s) is %s, the same call on the single elements gives %s (difference %.3g)%s'
+                    % (what, j, Xl, al, got, [float(v) for v in single.tolist()], d, ('; ' + why) if why else ''))
+        if op in ('Adj', 'AdjT'):
+            why = adj_oracle(g, Xl, al, got, op == 'AdjT', eps)
+        elif op == 'Jinvp':
+            why = jinvp_oracle(g, Xl, al, got, eps)
+        else:
+            why = laws(pp, torch, g, Xl, al, dtype, tail=(3.25,) if op == 'pp.add' else ())
+        if why:
+            return '%s: item %d: %s' % (what, j, why)
+    return None
+
+
 def run(ctx):
     pp = import_pypose()
     import torch
     ctx.rule = RULE
     rng = ctx.rng
+    import time
+    t_start = time.time()
+    stamp = lambda what: ctx.notes.append('time %s: %.1f s' % (what, time.time() - t_start))
     cases, meta = [], []
     kindsR = ['zero', 'tiny', 'eps', 'sqrteps', 'one', 'large']
     n_per = {'SO3': ctx.scale(240, 4000), 'SE3': ctx.scale(240, 4000), 'RxSO3': ctx.scale(180, 3000), 'Sim3': ctx.scale(240, 4000)}
@@ -115,13 +405,92 @@ def run(ctx):
             ctx.case((g, op, dname, tuple(X), tuple(a)), nontrivial=any(v != 0 for v in a), branch='%s-%s-%s' % (g, op, dname),
                      sample=dict(g=g, op=op, X=X, a=a, tail=tail, impl=o) if i % 37 == 3 else None)
             meta.append(dict(kind='grp', g=g, dtype=dname, X=X, a=a, op=op, tail=tail, impl=o))
+            # the defining identities, evaluated on the implementation for EVERY case (not only after a disagreement with the model)
+            why = guarded(lambda: laws(pp, torch, g, X, a, dtype, tail=tail))
+            if why:
+                ctx.violation('tangent-identity:%s:%s' % (g, op), '%s %s: %s' % (g, dname, why), meta[-1])
             epsl = 'E64' if dname == 'float64' else 'E32'
             fn = 'retr_l' if op == 'Retr' else 'add_group_l'
             cases.append(dict(idx=i, expr='%s (NF:=@NF@) (TF:=TransIv) %s %d %s %s' % (fn, epsl, GID[g], ivlist(X), ivlist(a + tail)), comps=[(j, o[j], tl) for j, tl in tol_group(g, o, eps)]))
-    # Jinvp and Jr (float64)
+    # ---- Adj / AdjT: tied to the model (g_adj) on their own, judged on every case by the matrix form of their defining
+    #      identities (adj_ref) and by the identities evaluated as transformations (laws); every judged call is the second
+    #      call on its object (after a call with another tangent vector); arguments must stay untouched
+    adj_cases = []
     for g in GROUPS:
+        alg = ALGS[GROUPS.index(g)]
+        gt, at = getattr(pp, g + '_type'), getattr(pp, alg + '_type')
+        prev = {}
+        for t in range(ctx.scale(84, 1500)):
+            dname = 'float64' if (t % 3) else 'float32'
+            dtype = torch.float64 if dname == 'float64' else torch.float32
+            eps = float(torch.finfo(dtype).eps)
+            X = generic_elt(rng, g, torch, dtype)
+            tt, qq, ss = split_elt(g, X)
+            if t % 8 == 1:
+                X = join_elt(g, tt, [0.0, 0.0, 0.0, 1.0], ss)                      # no rotation
+            elif t % 8 == 3:
+                X = join_elt(g, tt, direction(rng) + [0.0], ss)                    # exact half turn (w = 0)
+            elif t % 8 == 5:
+                X = join_elt(g, [0.0, 0.0, 0.0], [0.0, 0.0, 0.0, 1.0], 1.0)        # the identity element
+            elif t % 8 == 7:
+                X = join_elt(g, tt, [-v for v in qq], ss)                          # the other quaternion of the same rotation
+            X = [float(v) for v in torch.tensor(X, dtype=dtype).tolist()]
+            if t % 7 == 0:
+                kinds = ('zero', 'zero', 'one')          # only the scale component (zero for the algebras without one)
+            elif t % 7 == 1:
+                kinds = ('zero', 'one', 'zero')          # only the translation component
+            elif t % 7 == 2:
+                kinds = ('one', 'zero', 'zero')          # only the rotation component
+            else:
+                kinds = (kindsR[t % 6], rng.choice(['zero', 'one', 'tiny', 'large']), rng.choice(['zero', 'one', 'tiny', 'sqrteps', 'large']))
+            a = [float(v) for v in torch.tensor(gen_x(rng, alg, eps, kinds), dtype=dtype).tolist()]
+            if alg == 'sim3' and regime(a[-1], eps) == 'cancel':
+                a[-1] = 0.0      # C01's known finding (sim3 Exp at tiny log-scale) would enter through laws()
+            Xg = pp.LieTensor(torch.tensor(X, dtype=dtype), ltype=gt)
+            al = pp.LieTensor(torch.tensor(a, dtype=dtype), ltype=at)
+            X0, a0 = Xg.tensor().clone(), al.tensor().clone()
+            for name in ('Adj', 'AdjT'):
+                tr = name == 'AdjT'
+                c = dict(kind='adj', g=g, dtype=dname, X=X, a=a, op=name)
+                try:
+                    if dname in prev:
+                        getattr(Xg, name)(prev[dname])
+                    o = [float(v) for v in getattr(Xg, name)(al).tensor().tolist()]
+                except Exception as e:
+                    ctx.violation('tangent-raises:%s:%s' % (g, name), '%s raised %r' % (name, e), c)
+                    continue
+                if not (torch.equal(Xg.tensor(), X0) and torch.equal(al.tensor(), a0)):
+                    ctx.violation('mutation:%s:%s' % (g, name), '%s changed one of its arguments' % name, c)
+                    Xg, al = pp.LieTensor(X0.clone(), ltype=gt), pp.LieTensor(a0.clone(), ltype=at)
+                c['impl'] = o
+                i = len(meta)
+                meta.append(c)
+                ctx.case((g, name, dname, tuple(X), tuple(a)), nontrivial=any(v != 0 for v in a), branch='%s-%s-%s' % (g, name, dname),
+                         sample=dict(g=g, op=name, X=X, a=a, impl=o) if i % 97 == 5 else None)
+                if len(o) != ADIM[g] or any(not math.isfinite(v) for v in o):
+                    ctx.violation('adj-identity:%s:%s' % (g, name), '%s %s(X, a) = %s is not a finite %s element' % (g, name, o, alg), c)
+                    continue
+                ref, big = adj_ref(g, X, a, tr)
+                why = adj_oracle(g, X, a, o, tr, eps, ref=(ref, big))
+                if why:
+                    ctx.violation('adj-identity:%s:%s' % (g, name), '%s: %s' % (dname, why), c)
+                if t % 16 < 8 or why:        # the oracle judges every case, the model is evaluated on every second block of 8
+                    adj_cases.append(dict(idx=i, expr='g_adj (NF:=@NF@) %d %s %s %s' % (GID[g], 'true' if tr else 'false', ivlist(X), ivlist(a)),
+                                          comps=[(j, o[j], max(K_EPS * eps * big, 2.0 ** -120)) for j in range(len(o))]))
+            if max(abs(v) for v in a) <= 30.0:
+                why = guarded(lambda: laws(pp, torch, g, X, a, dtype))
+                if why:
+                    ctx.violation('tangent-identity:%s:Adj' % g, '%s %s: %s' % (g, dname, why), dict(kind='grp', g=g, dtype=dname, X=X, a=a, op='Adj', tail=[]))
+            prev[dname] = al
+    # ---- Jinvp (both dtypes): tied to the model; judged on every case against the inverse of the left Jacobian
+    #      (series definition) at an independently computed Log X - for Sim3 within the documented truncation
+    for g in GROUPS:
+        at = getattr(pp, ALGS[GROUPS.index(g)] + '_type')
+        prev = {}
         for t in range(ctx.scale(80, 1500)):
-            dtype, eps = torch.float64, 2.0 ** -52
+            dname = 'float32' if t % 8 == 7 or t % 8 == 4 else 'float64'
+            dtype = torch.float64 if dname == 'float64' else torch.float32
+            eps = float(torch.finfo(dtype).eps)
             X = [float(v) for v in torch.tensor(generic_elt(rng, g, torch, dtype), dtype=dtype).tolist()]
             if t % 4 == 1:
                 # rotation exactly the identity, translation / scale generic: the small-angle branches
@@ -131,18 +500,43 @@ def run(ctx):
                 tt, qq, ss = split_elt(g, X)
                 h = 1e-5     # small but not in the zone eps < theta <= 1e-7 where calcQ's closed forms cancel (C04 known finding)
                 X = [float(v) for v in torch.tensor(join_elt(g, tt, [h * 0.6, -h * 0.8, 0.0, 1.0], ss), dtype=dtype).tolist()]
+            elif t % 16 == 3:
+                tt, qq, ss = split_elt(g, X)
+                X = join_elt(g, [0.0, 0.0, 0.0], [0.0, 0.0, 0.0, 1.0], 1.0)        # the identity element: Jinvp(I, p) = p
+            elif t % 16 == 11:
+                tt, qq, ss = split_elt(g, X)
+                X = join_elt(g, tt, [-v for v in qq], ss)                          # w < 0 hemisphere of the same rotation
             p = [rng.uniform(-2, 2) if t % 5 else 0.0 for _ in range(ADIM[g])]
+            if t % 9 == 4:
+                p = [v if j == t % ADIM[g] else 0.0 for j, v in enumerate(p)]      # a single component
+            p = [float(v) for v in torch.tensor(p, dtype=dtype).tolist()]
             Xg = pp.LieTensor(torch.tensor(X, dtype=dtype), ltype=getattr(pp, g + '_type'))
-            pl = pp.LieTensor(torch.tensor(p, dtype=dtype), ltype=getattr(pp, ALGS[GROUPS.index(g)] + '_type'))
-            o = [float(v) for v in Xg.Jinvp(pl).tensor().tolist()]
+            pl = pp.LieTensor(torch.tensor(p, dtype=dtype), ltype=at)
+            X0, p0 = Xg.tensor().clone(), pl.tensor().clone()
+            c = dict(kind='jinvp', g=g, dtype=dname, X=X, a=p, op='Jinvp')
+            try:
+                if dname in prev:
+                    Xg.Jinvp(prev[dname])
+                o = [float(v) for v in Xg.Jinvp(pl).tensor().tolist()]
+            except Exception as e:
+                ctx.violation('tangent-raises:%s:Jinvp' % g, 'Jinvp raised %r' % (e,), c)
+                continue
+            prev[dname] = pl
+            if not (torch.equal(Xg.tensor(), X0) and torch.equal(pl.tensor(), p0)):
+                ctx.violation('mutation:%s:Jinvp' % g, 'Jinvp changed one of its arguments', c)
             if any(not math.isfinite(v) for v in o):
-                ctx.violation('jinvp-nonfinite:%s' % g, 'Jinvp returned a non-finite value %s' % o, dict(kind='jinvp', g=g, dtype='float64', X=X, a=p, op='Jinvp'))
+                ctx.violation('jinvp-nonfinite:%s' % g, 'Jinvp returned a non-finite value %s' % o, c)
                 continue
             i = len(meta)
-            ctx.case((g, 'Jinvp', tuple(X), tuple(p)), branch='%s-Jinvp' % g)
-            meta.append(dict(kind='jinvp', g=g, dtype='float64', X=X, a=p, op='Jinvp', impl=o))
+            ctx.case((g, 'Jinvp', dname, tuple(X), tuple(p)), branch='%s-Jinvp-%s' % (g, dname))
+            c['impl'] = o
+            meta.append(c)
+            why = jinvp_oracle(g, X, p, o, eps)
+            if why:
+                ctx.violation('jinvp-identity:%s' % g, '%s: %s' % (dname, why), c)
             sc = max(1.0, max(abs(v) for v in o))
-            cases.append(dict(idx=i, expr='jinvp (NF:=@NF@) (TF:=TransIv) E64 %d %s %s' % (GID[g], ivlist(X), ivlist(p)), comps=[(j, o[j], K_SQRT * math.sqrt(eps) * sc) for j in range(len(o))]))
+            epsl = 'E64' if dname == 'float64' else 'E32'
+            cases.append(dict(idx=i, expr='jinvp (NF:=@NF@) (TF:=TransIv) %s %d %s %s' % (epsl, GID[g], ivlist(X), ivlist(p)), comps=[(j, o[j], K_SQRT * math.sqrt(eps) * sc) for j in range(len(o))]))
     for t in range(ctx.scale(120, 2000)):
         dtype, eps = torch.float64, 2.0 ** -52
         kind = kindsR[t % 6]
@@ -159,7 +553,13 @@ def run(ctx):
         th = math.sqrt(sum(v * v for v in x))
         tol = K_EPS * eps * max(1.0, (1.0 / th if th > eps else 1.0))
         cases.append(dict(idx=i, expr='concat (so3_Jr (NF:=@NF@) (TF:=TransIv) E64 %s)' % ivlist(x), comps=[(j, o[j], tol) for j in range(9)]))
+    stamp('generation + oracles')
     r = run_interval('C05', 'Model.LieGroup Model.LieExp Model.LieLog Model.LieJac Model.LieTangent', cases)
+    stamp('interval tie (tangent ops)')
+    r2 = run_interval('C05', 'Model.LieGroup', adj_cases, per_file=max(100, (len(adj_cases) + 2) // 3), tag='adj')
+    stamp('interval tie (Adj/AdjT)')
+    r = dict((k, sorted(r[k] + r2[k]) if k != 'broken' else r[k] + r2[k]) for k in r)
+    cases = cases + adj_cases
     for name, out in r['broken']:
         ctx.obligation_broken('correspondence-file:' + name, out)
     ctx.notes.append('enclosure: %d proved within tolerance, %d proved outside, %d undecided' % (len(r['ok']), len(set(i for i, _ in r['bad'])), len(r['undecided'])))
@@ -180,6 +580,52 @@ def run(ctx):
             if fr(out.tensor()) != exp or out.ltype != xl.ltype:
                 ctx.violation('algebra-add:%s' % alg, '%s + tensor is not plain addition of the first %d components: %s + %s -> %s' % (alg, k, x, other, out.tensor().tolist()),
                               dict(kind='algadd', g=g, x=x, other=other))
+    # ---- regression witnesses of the out-of-place add defect (X must be expanded to the joint batch shape)
+    for g in GROUPS:
+        for bx, ba in (((2, 1), (1, 3)), ((), (3,))):
+            for dname in ('float64', 'float32'):
+                dtype = torch.float64 if dname == 'float64' else torch.float32
+                Xrows = [[float(v) for v in torch.tensor(generic_elt(rng, g, torch, dtype), dtype=dtype).tolist()] for _ in range(int(torch.Size(bx).numel()))]
+                arows = [[float(v) for v in torch.tensor([rng.uniform(-1, 1) for _ in range(ADIM[g])], dtype=dtype).tolist()] for _ in range(int(torch.Size(ba).numel()))]
+                for op in ('add', 'X.add', 'pp.add', 'alg+'):
+                    ctx.case((g, 'add-broadcast', op, dname, bx), branch='add-broadcast-witness')
+                    why = guarded(lambda: batch_check(pp, torch, g, dname, op, Xrows, arows, bx, ba, 'contiguous'))
+                    if why:
+                        ctx.violation(ADD_BROADCAST_KEY, why, dict(kind='batch', g=g, dtype=dname, op=op, X=Xrows, a=arows, bx=list(bx), ba=list(ba), layout='contiguous'))
+    # ---- broadcastable batch shapes and memory layouts, special elements (identity, zero tangent, single-component
+    #      tangents, half turn) mixed with generic ones; item by item against the single-element calls
+    for g in GROUPS:
+        alg = ALGS[GROUPS.index(g)]
+        for t in range(ctx.scale(18, 120)):
+            dname = 'float64' if t % 2 == 0 else 'float32'
+            dtype = torch.float64 if dname == 'float64' else torch.float32
+            bx, ba = BATCH_SHAPES[t % len(BATCH_SHAPES)]
+            if t % 4 == 3:
+                bx, ba = ba, bx
+            layout = LAYOUTS[(t // 2) % len(LAYOUTS)]
+            nx, na = int(torch.Size(bx).numel()), int(torch.Size(ba).numel())
+            Xrows, arows = [], []
+            for j in range(nx):
+                X = generic_elt(rng, g, torch, dtype)
+                tt, qq, ss = split_elt(g, X)
+                sp = (t + j) % 4
+                X = [X, join_elt(g, [0.0] * 3, [0.0, 0.0, 0.0, 1.0], 1.0), join_elt(g, tt, [0.0, 0.0, 0.0, 1.0], ss), X][sp]
+                Xrows.append([float(v) for v in torch.tensor(X, dtype=dtype).tolist()])
+            for j in range(na):
+                a = [rng.uniform(-1.5, 1.5) for _ in range(ADIM[g])]
+                sp = (t + 2 * j) % 5
+                if sp == 1:
+                    a = [0.0] * ADIM[g]
+                elif sp == 2:
+                    a = [0.0] * (ADIM[g] - 1) + [a[-1]]                    # last component only (the scale for rxso3 / sim3)
+                elif sp == 3:
+                    a = [a[0]] + [0.0] * (ADIM[g] - 1)                    # first component only
+                arows.append([float(v) for v in torch.tensor(a, dtype=dtype).tolist()])
+            for op in BATCH_OPS + ('alg+',):
+                ctx.case((g, 'batch', op, dname, t), branch='%s-batch-%s' % (g, layout))
+                why = guarded(lambda: batch_check(pp, torch, g, dname, op, Xrows, arows, bx, ba, layout))
+                if why:
+                    ctx.violation('batch:%s:%s' % (g, op), why, dict(kind='batch', g=g, dtype=dname, op=op, X=Xrows, a=arows, bx=list(bx), ba=list(ba), layout=layout))
     # ---- histories on ONE object: an op result must depend on the CURRENT value of X only (no state kept on the
     #      LieTensor across calls): op(X), modify X in place, op(X) again == op(fresh copy of X)
     for g in GROUPS:
@@ -214,6 +660,7 @@ def run(ctx):
                                   dict(kind='stale', g=g, dtype=dname, how=how, op=name, X0=[[float(v) for v in r] for r in fresh.tensor().tolist()],
                                        a=[[float(v) for v in r] for r in a.tensor().tolist()], d=[[float(v) for v in r] for r in d.tolist()]))
                     break
+    stamp('algebra +, batches, histories')
     # ---- search
     for i in sorted(set(i for i, _ in r['bad'])):
         m = meta[i]
@@ -231,6 +678,20 @@ def replay(ctx, c):
     dtype = torch.float64 if c.get('dtype', 'float64') == 'float64' else torch.float32
     if c['kind'] == 'grp':
         return laws(pp, torch, c['g'], c['X'], c['a'], dtype, tail=c.get('tail') or ())
+    if c['kind'] == 'adj':
+        eps = float(torch.finfo(dtype).eps)
+        g, tr = c['g'], c['op'] == 'AdjT'
+        Xg = pp.LieTensor(torch.tensor(c['X'], dtype=dtype), ltype=getattr(pp, g + '_type'))
+        al = pp.LieTensor(torch.tensor(c['a'], dtype=dtype), ltype=getattr(pp, ALGS[GROUPS.index(g)] + '_type'))
+        try:
+            o = [float(v) for v in (Xg.AdjT(al) if tr else Xg.Adj(al)).tensor().tolist()]
+        except Exception as e:
+            return '%s raised %r' % (c['op'], e)
+        if len(o) != ADIM[g] or any(not math.isfinite(v) for v in o):
+            return '%s returned %s' % (c['op'], o)
+        return adj_oracle(g, c['X'], c['a'], o, tr, eps) or (guarded(lambda: laws(pp, torch, g, c['X'], c['a'], dtype)) if max(abs(v) for v in c['a']) <= 30.0 else None)
+    if c['kind'] == 'batch':
+        return guarded(lambda: batch_check(pp, torch, c['g'], c['dtype'], c['op'], c['X'], c['a'], c['bx'], c['ba'], c['layout']))
     if c['kind'] == 'algadd':
         alg = ALGS[GROUPS.index(c['g'])]
         k = ADIM[c['g']]
@@ -243,11 +704,18 @@ def replay(ctx, c):
         Xg = pp.LieTensor(torch.tensor(c['X'], dtype=dtype), ltype=getattr(pp, g + '_type'))
         at = getattr(pp, ALGS[GROUPS.index(g)] + '_type')
         p = torch.tensor(c['a'], dtype=dtype)
-        h = 1e-6
+        h = 1e-6 if dtype == torch.float64 else 1e-2
         fd = ((pp.LieTensor(h * p, ltype=at).Exp() @ Xg).Log().tensor() - (pp.LieTensor(-h * p, ltype=at).Exp() @ Xg).Log().tensor()) / (2 * h)
         got = Xg.Jinvp(pp.LieTensor(p, ltype=at)).tensor()
-        xi = float(Xg.Log().tensor().abs().max())
-        tol = 2e-5 * max(1.0, float(fd.abs().max())) + (4 * xi ** 6 if g == 'Sim3' else 0.0)
+        why = jinvp_oracle(g, c['X'], c['a'], [float(v) for v in got.tolist()], float(torch.finfo(dtype).eps))
+        if why:
+            return why
+        # the statement itself by central differences; Sim3: plus the bound of the documented truncation
+        trunc = 0.0
+        if g == 'Sim3':
+            trunc = bernoulli_tail(float(_np().linalg.norm(ad_ref(g, log_ref(g, c['X'])), 2))) * float(p.norm())
+            trunc = trunc if math.isfinite(trunc) and float(p.norm()) > 0 else (0.0 if float(p.norm()) == 0 else float('inf'))
+        tol = (2e-5 if dtype == torch.float64 else 5e-2) * max(1.0, float(fd.abs().max())) + trunc
         d = float((fd - got).abs().max())
         return 'Jinvp differs from the first-order change of Log(Exp(tau)@X) by %.3g (tolerance %.3g)' % (d, tol) if d > tol else None
     if c['kind'] == 'stale':
